@@ -8,6 +8,7 @@ import Driver.TimeD
 import Driver.Ops
 import Driver.Typing
 import Driver.Grpc
+import Driver.Spec
 /- line protocol: one request per line on stdin, one reply per line on stdout -/
 open Drv
 
@@ -54,6 +55,9 @@ def step (st : AllSt) (line : String) : AllSt × String :=
   | none =>
   match handleGrpc st.grpc toks with
   | some (s, r) => ({ st with grpc := s }, r)
+  | none =>
+  match handleSpec st.wire toks with
+  | some r => (st, r)
   | none => (st, "bad-op")
 
 partial def loop (h : IO.FS.Stream) (out : IO.FS.Stream) (st : AllSt) : IO Unit := do
